@@ -693,6 +693,104 @@ fn gen_fill(count: u64, seed: u64) {
     }
 }
 
+/// Mixed batches in the far regime, enumerated: a full cache whose residents and whose newcomer
+/// have every combination of small popularities; then one un-synced batch holding the insert of
+/// the newcomer and one or two actions on residents (update, read, invalidate), in every order;
+/// then sync and a lookup of every key. Maintenance applies the reads of the batch first, then
+/// its writes in order: the recency order it builds decides the victims.
+fn gen_mixed(count: u64, seed: u64) {
+    use std::io::Write;
+    let out = std::io::stdout();
+    let mut o = std::io::BufWriter::new(out.lock());
+    let mut rng = Rng::new(seed);
+    let mut all: Vec<Value> = Vec::new();
+    for (cap, weigher) in [(2u32, false), (3, false), (2, true)] {
+        let n = cap + 1;
+        let nfreq = 3u64.pow(cap) * 4;
+        // actions on residents: (kind, key); kind 0 = invalidate, 1 = update, 2 = get
+        let mut acts: Vec<(u8, u32)> = Vec::new();
+        for j in 1..=cap {
+            for kind in 0..3u8 {
+                acts.push((kind, j));
+            }
+        }
+        let mut batches: Vec<Vec<(u8, u32)>> = Vec::new(); // kind 9 = the newcomer's insert
+        for a in acts.iter() {
+            batches.push(vec![(9, n), *a]);
+            batches.push(vec![*a, (9, n)]);
+            for b in acts.iter() {
+                if a != b {
+                    batches.push(vec![(9, n), *a, *b]);
+                    batches.push(vec![*a, (9, n), *b]);
+                    batches.push(vec![*a, *b, (9, n)]);
+                }
+            }
+        }
+        for code0 in 0..nfreq {
+            for b in batches.iter() {
+                // (a seeded fifth: the product is large)
+                if !rng.chance(1, 5) {
+                    continue;
+                }
+                let mut code = code0;
+                let cfg = json!({"kind": "sync", "cap": cap, "ttl": -1, "tti": -1, "weigher": weigher,
+                    "hasher": "id", "nkeys": 4, "lean": false, "seed": 0});
+                let mut ops: Vec<Value> = Vec::new();
+                let mut vid = 1u32;
+                for k in 1..=cap {
+                    ops.push(json!({"op": "Insert", "k": k, "v": vid, "w": 1}));
+                    ops.push(json!({"op": "Sync"}));
+                    vid += 1;
+                }
+                for k in 1..=cap {
+                    for _ in 0..(code % 3) {
+                        ops.push(json!({"op": "Get", "k": k}));
+                        ops.push(json!({"op": "Sync"}));
+                    }
+                    code /= 3;
+                }
+                for _ in 0..(code % 4) {
+                    ops.push(json!({"op": "Get", "k": n}));
+                    ops.push(json!({"op": "Sync"}));
+                }
+                ops.push(json!({"op": "Advance", "d": 1}));
+                for (kind, k) in b.iter() {
+                    match kind {
+                        9 => {
+                            ops.push(json!({"op": "Insert", "k": k, "v": vid, "w": 1}));
+                            vid += 1;
+                        }
+                        0 => ops.push(json!({"op": "Invalidate", "k": k})),
+                        1 => {
+                            // with a weigher the update also changes the weight (1 -> 2 does not fit any more)
+                            ops.push(json!({"op": "Insert", "k": k, "v": vid, "w": if weigher { 2 } else { 1 }}));
+                            vid += 1;
+                        }
+                        _ => ops.push(json!({"op": "Get", "k": k})),
+                    }
+                }
+                ops.push(json!({"op": "Sync"}));
+                for k in 1..=n {
+                    ops.push(json!({"op": "Get", "k": k}));
+                }
+                ops.push(json!({"op": "Sync"}));
+                all.push(json!({"cfg": cfg, "ops": ops}));
+            }
+        }
+    }
+    let total = all.len() as u64;
+    let mut id = 0u64;
+    for (i, mut b) in all.into_iter().enumerate() {
+        let left = total - i as u64;
+        let want = count.saturating_sub(id);
+        if total <= count || rng.below(left) < want {
+            b["id"] = json!(id);
+            writeln!(o, "{}", b).unwrap();
+            id += 1;
+        }
+    }
+}
+
 /// The flush points at their real values: in the far regime (nothing but a full-enough log
 /// triggers maintenance) runs of writes and of reads that stop just below, at and just above
 /// 64 records, over a handful of keys; the snapshots after every call show the queue lengths.
@@ -766,6 +864,10 @@ pub fn cmd_gen(args: &[String]) {
     }
     if args[0] == "unsync-fill" {
         gen_fill(args[2].parse().unwrap(), args[1].parse().unwrap());
+        return;
+    }
+    if args[0] == "sync-mixed" {
+        gen_mixed(args[2].parse().unwrap(), args[1].parse().unwrap());
         return;
     }
     if args[0] == "sync-evict" {
